@@ -668,9 +668,16 @@ impl<'a> Gen<'a> {
             _ => self.fl(0.0, 30.0),
         };
         push!(self, json!(["u_set", null, u2, fld, val]));
-        if self.rng.chance(0.5) {
-            let a = self.fl(-3.0, 3.0);
+        if self.rng.chance(0.6) {
+            // rotating by exactly 0 is still "set the angle" (None becomes Some(0), a rotated box becomes unrotated)
+            let a = match self.rng.usize(5) {
+                0 => json!(0.0),
+                1 => json!(-0.0),
+                _ => self.fl(-3.0, 3.0),
+            };
             push!(self, json!(["u_rotate", null, u3, a]));
+            push!(self, json!(["u_as_ltwh", null, u3]));
+            push!(self, json!(["u_vertices", null, u3]));
         }
         push!(self, json!(["u_radius", null, u2]));
         push!(self, json!(["u_area", null, u3]));
@@ -679,6 +686,21 @@ impl<'a> Gen<'a> {
         push!(self, json!(["u_vertices", null, u2]));
         push!(self, json!(["clip", null, u2, u3]));
         push!(self, json!(["intersection_area", null, u3, u2]));
+        // a box whose vertices were generated and which is then changed through its setters must be clipped in its new state
+        if self.rng.chance(0.6) {
+            let fld = *self.rng.pick(&["xc", "yc", "angle", "aspect", "height"]);
+            let val = match fld {
+                "angle" => self.fl(0.1, 3.0),
+                "aspect" => self.fl(0.3, 2.0),
+                "height" => self.fl(10.0, 50.0),
+                _ => self.fl(0.0, 30.0),
+            };
+            push!(self, json!(["u_gen_vertices", null, u2]));
+            push!(self, json!(["u_set", null, u2, fld, val]));
+            push!(self, json!(["clip", null, u2, u3]));
+            push!(self, json!(["intersection_area", null, u2, u3]));
+            push!(self, json!(["intersection_area", null, u3, u2]));
+        }
         // nms over a handful of boxes
         let mut dets = vec![];
         for _ in 0..2 + self.rng.usize(5) {
@@ -1058,7 +1080,7 @@ fn main() {
     let moddir = cli.param_str("moddir").unwrap_or("/verif/target/py/mod").to_string();
     let driver = cli.param_str("driver").unwrap_or("/verif/harness/pydrv/driver.py").to_string();
     let rundir = cli.param_str("rundir").unwrap_or("/verif/target/run/C18").to_string();
-    let n = cli.cases(160, 5000);
+    let n = cli.cases(240, 5000);
     let mut scripts: Vec<(u64, Vec<Value>)> = vec![];
     for idx in cli.index_range(n) {
         let mut rng = Rng::for_case(cli.seed, cli.shard, idx);
